@@ -165,17 +165,26 @@ UnitsOf(ins, arg) ==
     LET n == SizeOf(ins, arg) IN
     [j \in 1..n |-> <<IF j = n THEN ins[1] ELSE "EXTENDED_ARG", ByteOf(arg, n - j)>>]
 
+\* the operands every instruction has before the layout loop starts: first visit of every
+\* instruction, then the additional args, then the freevar shift by the number of cell variables
+\* (the shift used to come after the loop; "fix:" commit for C03/freeshift)
+Prepared(d, km, strToks, noneTok) ==
+    LET a0 == AssignOperands(d, km, strToks, noneTok)
+        t1 == FoldLeft(LAMBDA t, a: FromArg(t, a, d, km, strToks, noneTok)[1], a0.t, d.additional)
+        ncell == Cardinality(DOMAIN t1.cellvars.i2a)
+    IN [t |-> t1, ncell |-> ncell,
+        args |-> [i \in DOMAIN d.instrs |-> IF d.instrs[i][2] = "F" THEN a0.args[i] + ncell ELSE a0.args[i]]]
+
 \* the whole of blocks_to_bytes + from_code_data as one function of the abstract data
 Encode(d, ver, km, strToks, noneTok, bound) ==
     LET scale == V!JumpScale(ver)
         lt == V!UseLinetable(ver)
-        a0 == AssignOperands(d, km, strToks, noneTok)
-        rl == RelaxLoop(d, a0.args, scale, 1, bound)
-        \* additional args, then the freevar shift
-        t1 == FoldLeft(LAMBDA t, a: FromArg(t, a, d, km, strToks, noneTok)[1], a0.t, d.additional)
-        ncell == Cardinality(DOMAIN t1.cellvars.i2a)
+        pr == Prepared(d, km, strToks, noneTok)
+        t1 == pr.t
+        ncell == pr.ncell
+        rl == IF t1.exc # "" THEN [args |-> pr.args, passes |-> 0, exc |-> ""] ELSE RelaxLoop(d, pr.args, scale, 1, bound)
         n == Len(d.instrs)
-        args == [i \in 1..n |-> IF d.instrs[i][2] = "F" THEN rl.args[i] + ncell ELSE rl.args[i]]
+        args == rl.args
         units == Flatten([i \in 1..n |-> UnitsOf(d.instrs[i], args[i])])
         offs == Offsets(d, args)
         ncode == offs[n + 1]
@@ -193,9 +202,8 @@ Encode(d, ver, km, strToks, noneTok, bound) ==
         table == L!FromLineMapping([lines |-> lines, addl |-> addl], lt)
         varnames == ToTuple(t1.varnames)
         h == EH!EncodeHeader(d, ver, Len(d.freevars) = 0 /\ ncell = 0)
-        exc == IF a0.t.exc # "" THEN a0.t.exc
+        exc == IF t1.exc # "" THEN t1.exc
                ELSE IF rl.exc # "" THEN rl.exc
-               ELSE IF t1.exc # "" THEN t1.exc
                ELSE IF HasGap(t1.names) \/ HasGap(t1.varnames) \/ HasGap(t1.cellvars) \/ HasGap(t1.consts) THEN "ValueError"
                ELSE IF d.is_fn /\ SubSeq(varnames, 1, Len(h.params)) # h.params THEN "AssertionError"
                ELSE IF ~lt /\ noneLine THEN "TypeError"
